@@ -28,6 +28,9 @@ THEOREMS = [
     "FaxVerif.C08.lookup_factors",
     "FaxVerif.C08.alpha_translate",
     "FaxVerif.C08.alpha_translate_open",
+    "FaxVerif.C08.bound_before_global",
+    "FaxVerif.C08.globals_unread",
+    "FaxVerif.C08.alpha_global",
     "FaxVerif.C08.simplify_alpha_partial",
     "FaxVerif.C08.where_shadow_counterexample",
     "FaxVerif.C08.count_acc_counterexample",
@@ -58,12 +61,16 @@ THEOREMS = [
 RULE = (
     "type-directed random queries over a synthetic data model that each query declares for itself through its own MetaData calls "
     "(collections CollA/CollB, typed methods i/f/b/o/os/vs, a plug-in function and a plug-in method; optionally inject_code blocks, job "
-    "scripts, an equal duplicate, a conflicting re-declaration): event- and collection-level Select/Where/SelectMany nested <=3, "
+    "scripts, an equal duplicate, a conflicting re-declaration; in 60% of the queries one or two enums in a top-level and a nested "
+    "namespace, used as `j.i() == mdlns.Color.Red` filters/tests or declared without being used): event- and collection-level Select/Where/SelectMany nested <=3, "
     "Count/Sum/First, tuples/lists/dicts, arithmetic, comparisons, and/or/not, if-else, subscripts, math and plug-in calls, function- and "
-    "method-style operators; depth 1-3; one backend per query in rotation (quick: 48 queries) or all three backends per query (thorough: "
+    "method-style operators; depth 1-3; one backend per query in rotation (quick: 42 queries) or all three backends per query (thorough: "
     "160 queries). Variants per query: MetaData at the top / spread over chain positions and sub-streams inside lambda bodies with the "
     "extraction order kept / free order when Lean's `commutingAll` holds; two alpha-renamings from a small pool that deliberately re-uses "
-    "the names of enclosing binders (and acc, v) + the Barendregt renaming; one Select.Select or Where.Where pair fused as composition of "
+    "the names of enclosing binders (and acc, v) + the Barendregt renaming + one or two renamings whose pool are the spellings that mean "
+    "something to the pipeline as FREE names (the namespaces this query declares, weighted highest; enum/plug-in/collection/method "
+    "names; operators; math functions; C++ and qastle words; with probability 0.3 a spelling used in the lambda's own body or a word of "
+    "the declaration of a plug-in/enum used there) wherever the body does not mention the free name; one Select.Select or Where.Where pair fused as composition of "
     "the two lambdas and, when nothing is duplicated, by substitution; one step unfused; call style flipped; all of these combined; qastle "
     "text of the base and of the combined variant. Every pair is first judged by Lean to be in the relation the property quantifies over "
     "and outside the defect exclusions; then both are translated by the real pipeline and `SameOutcome` is evaluated. Plus: 300/3000 "
@@ -87,7 +94,9 @@ LEVEL_TEXT = (
     "Machine-checked proofs (Lean 4, no sorry, axioms propext/Classical.choice/Quot.sound only) about executable models of every stage of "
     "the pipeline that looks at names, metadata or chaining, for all queries (any size, nesting, shadowing): (b) alpha-equivalence of named "
     "queries = equality of de Bruijn forms; the translator's frame stack answers every lookup like the de Bruijn environment, so any "
-    "translator whose handlers never see a bound name gives identical result, state and errors on alpha-equivalent queries; func_adl's "
+    "translator whose handlers never see a bound name gives identical result, state and errors on alpha-equivalent queries; a bound "
+    "name never reaches the table of global names (declared namespaces), and a query that reads none of a set of global names is "
+    "translated identically whatever the table says about them, so parameters may be spelled like declared namespaces; func_adl's "
     "simplifier respects alpha exactly on the capture-free queries (decidable), with four proved counterexamples outside; (c) attaching a "
     "MetaData call at any valid position leaves the extracted query unchanged and inserts its dictionary into the list, any number of "
     "placements give a permutation, and process_metadata's registries do not depend on the order of non-conflicting items; (d) separately "
@@ -361,6 +370,16 @@ def build_case(rng, backend: str, depth: int) -> Case:
         add("alpha", Vr.place(rng, r, mdt, "bottom"), {"kind": "alpha", "q": q, "q2": r}, strict=False)
     r = Vr.uniquify(q)
     add("alpha-unique", Vr.place(rng, r, mdt, "bottom"), {"kind": "alpha", "q": q, "q2": r}, strict=False)
+    # (b) parameters spelled like names that mean something to the pipeline when FREE: the namespaces this query
+    # declares (define_enum), enum/plug-in/collection/method names, operators, math functions, C++ and qastle words
+    G = gen.global_names(mds)
+    groups = Vr.global_groups(G)
+    c.globals = G
+    for k in range(2 if G["namespace"] else 1):
+        r = Vr.rename(rng, q, shadow_p=0.3, groups=groups, related=gen.related_words(mds))
+        for grp in spelled_like(T, r, G):
+            feats["parameter-spelled-like:" + grp] = feats.get("parameter-spelled-like:" + grp, 0) + 1
+        add("alpha-global", Vr.place(rng, r, mdt, "bottom"), {"kind": "alpha", "q": q, "q2": r, "globals": G["namespace"]}, strict=False)
     # (d) fusing / unfusing; the fused composition is checked by Lean on the call-style form
     qc = real_style(q)
     fs = Vr.fusable(qc)
@@ -380,7 +399,10 @@ def build_case(rng, backend: str, depth: int) -> Case:
     s = Vr.restyle(rng, q)
     add("style", Vr.place(rng, s, mdt, "bottom"), {"kind": "style", "q": q, "q2": s})
     # everything at once: renamed, restyled, metadata spread (order kept)
-    allv = Vr.place(rng, Vr.restyle(rng, Vr.rename(rng, q)), mdt, "spread")
+    # (operator names stay out of this pool: the restyling turns `x.Where(f)` into `Where(x, f)`, a free name that a
+    # parameter spelled `Where` would capture — that would not be a renaming of the restyled query)
+    groups_c = Vr.global_groups({k: v for k, v in G.items() if k != "operator"})
+    allv = Vr.place(rng, Vr.restyle(rng, Vr.rename(rng, q, groups=groups_c if rng.random() < 0.5 else None)), mdt, "spread")
     add("combined", allv, {"kind": "combined", "q": base, "q2": allv, "need": "sameOrder"}, strict=False)
     # (a) wire
     try:
@@ -391,6 +413,16 @@ def build_case(rng, backend: str, depth: int) -> Case:
     except Exception as e:  # qastle refuses the query: counted, nothing to compare
         c.qastle_refused = type(e).__name__
     return c
+
+
+def spelled_like(T, t, G: Dict[str, List[str]]) -> List[str]:
+    """the groups of gen.global_names that some lambda parameter of `t` is spelled like (one entry per binder)"""
+    out = []
+    for s in T.subterms(t):
+        if s[0] == "l":
+            for p in s[1]:
+                out += [g for g, names in G.items() if p in names]
+    return out
 
 
 def wire_metadata_case(backend: str, label: str, q, mds: List[Dict[str, Any]]) -> Case:
@@ -462,6 +494,8 @@ def rel_request(T, rel: Dict[str, Any]) -> Dict[str, Any]:
         r["z"] = rel["z"]
     if "sep" in rel:
         r["sep"] = T.to_json(rel["sep"])
+    if "globals" in rel:
+        r["globals"] = list(rel["globals"])
     return r
 
 
@@ -472,6 +506,8 @@ def decide_variant(v: Dict[str, Any], ans: Dict[str, Any], commuting: bool) -> O
     rel = v["rel"]
     if not ans.get("related", False):
         return "not-related"  # a bug of a variant producer: reported as an internal disagreement
+    if ans.get("readsGlobal", False) != ans.get("readsGlobal2", False):
+        return "not-related"  # a renaming that changes which global names the query reads is no renaming
     if rel.get("need") == "sameOrder" and not ans.get("sameOrder", False):
         return "not-related"
     if rel.get("need") == "commuting" and not (commuting or ans.get("sameOrder", False)):
@@ -602,6 +638,10 @@ def process_cases(ctx, cases: List[Case], stream: str, tie: bool = True) -> List
             ctx.count(f"{stream}:{v['kind']}:" + ("ok" if both_ok else "both-refused" if holds else "one-refused"))
             if not strict and a["diag"] and not a["strict"]:
                 ctx.count("diag-text-differs(known F1 class)")
+            if v["kind"] == "alpha-global" and v["rel_ans"].get("binderLikeGlobal"):
+                # a parameter spelled like a namespace this query declares: Lean says whether the query also reads that
+                # namespace as a free name elsewhere (alpha_translate) or not at all (alpha_global)
+                ctx.count("parameter-spelled-like-declared-namespace:" + ("namespace-also-read-free" if v["rel_ans"].get("readsGlobal") else "namespace-unread"))
             if not holds:
                 failures.append({"case": c, "variant": v, "answer": a, "key": key})
         elif what == "strip":
@@ -923,6 +963,67 @@ def shrink(ctx, case: Dict[str, Any]) -> Dict[str, Any]:
                 case["variant_text"] = T.show(T.of_json(cand["variant"]))
     except Exception:
         pass
+    if str(case.get("kind", "")).startswith("alpha"):
+        try:
+            case = shrink_names(ctx, case)
+        except Exception:
+            pass
+    return case
+
+
+def binders_with(T, base, names: List[List[str]]):
+    """`base` with the parameters of its k-th lambda (pre-order) renamed to names[k]; None unless alpha-equal to base."""
+    k = [0]
+
+    def go(t, env):
+        if t[0] == "v":
+            return T.V(env.get(t[1], t[1]))
+        if t[0] == "c":
+            return t
+        if t[0] == "a":
+            return ("a", go(t[1], env), tuple(go(x, env) for x in t[2]))
+        if t[0] == "n":
+            return ("n", t[1], tuple(go(x, env) for x in t[2]))
+        new = names[k[0]]
+        k[0] += 1
+        env2 = dict(env)
+        env2.update(zip(t[1], new))
+        return ("l", tuple(new), go(t[2], env2))
+
+    r = go(base, {})
+    return r if T.debruijn(r) == T.debruijn(base) else None
+
+
+def shrink_names(ctx, case: Dict[str, Any]) -> Dict[str, Any]:
+    """A failing renaming with as few renamed binders as possible: every lambda gets the base's parameter names back
+    where the result is still an alpha-variant and the comparison still fails."""
+    T, _, Vr, _ = _lib()
+    b, bm = Vr.strip_py(T.of_json(case["base"]))
+    v, vm = Vr.strip_py(T.of_json(case["variant"]))
+    if bm != vm or T.debruijn(b) != T.debruijn(v):
+        return case
+    lb = [list(s[1]) for s in T.subterms(b) if s[0] == "l"]
+    lv = [list(s[1]) for s in T.subterms(v) if s[0] == "l"]
+    if len(lb) != len(lv) or len(lb) > 12:
+        return case
+    base_full = Vr.attach(b, [((), x) for x in bm])
+    cur = list(lv)
+    for i in range(len(cur)):
+        if cur[i] == lb[i]:
+            continue
+        trial = cur[:i] + [lb[i]] + cur[i + 1 :]
+        t = binders_with(T, b, trial)
+        if t is None or t == b:
+            continue
+        cand = dict(case)
+        cand["base"] = T.to_json(base_full)
+        cand["variant"] = T.to_json(Vr.attach(t, [((), x) for x in bm]))
+        r = compare_pair(ctx, cand)
+        if not r["holds"] and "ok" in r["base"]:
+            cur = trial
+            case = cand
+            case["base_text"] = T.show(base_full)
+            case["variant_text"] = T.show(T.of_json(cand["variant"]))
     return case
 
 
